@@ -347,7 +347,13 @@ func execC04(c *Case, sc *Script, o *Obs) {
 				o.add(name, "C04:superlinear", fmt.Sprintf("%d yields for %d bytes (bound %d)", oc.Y1-oc.Y0, n, bound))
 			}
 			if ab := uint64(4<<20) + uint64(20<<10)*uint64(n); c.X.Bound && oc.Alloc > ab {
-				o.add(name, "C04:superlinear-alloc", fmt.Sprintf("%d MiB allocated while generating from %d input bytes (bound %d MiB): work that the yield counter cannot see (standard library)", oc.Alloc>>20, n, ab>>20))
+				sig := "C04:superlinear-alloc"
+				if el := int64(len(oc.Err)); !oc.Ok && el >= n/2 && el <= 2*n+512 {
+					// the error message quotes the whole expression once: AST.String() of a deeply nested
+					// tree (every level copies the text of its subtree) - the known mechanism
+					sig += ":error-quotes-expression"
+				}
+				o.add(name, sig, fmt.Sprintf("%d MiB allocated while generating from %d input bytes (bound %d MiB, error message of %d bytes): work that the yield counter cannot see (standard library)", oc.Alloc>>20, n, ab>>20, len(oc.Err)))
 			}
 			if oc.Ok {
 				classes = append(classes, "ok")
@@ -429,7 +435,10 @@ func execC12(c *Case, sc *Script, o *Obs) {
 	if c.X.Huge {
 		b.GraceYields = 50_000
 		b.GraceDecs = 20_000
-		b.GraceTime = int64(time.Second)
+		// Simulated time is free (the clock jumps): an element that is being computed when the
+		// consumer stops (a host function of minutes) cannot be interrupted by any implementation and
+		// ends by itself; what must not happen is work that goes on, and that costs yields.
+		b.GraceTime = int64(6 * time.Hour)
 	}
 	judge := func(name string, r *RunOut) {
 		judgeLeftover("C12", name, r, c.X.Huge, c.X.SparseAt > 0, o)
@@ -545,7 +554,7 @@ func execC05(c *Case, sc *Script, o *Obs) {
 		if !got.Done {
 			return
 		}
-		if c.X.Fault == "boundary" {
+		if c.X.Fault == "boundary" || c.X.Fault == "concurrent-benign" {
 			return // any value or error is fine: the oracle is "no crash, no hang"
 		}
 		if c.X.Try {
